@@ -93,7 +93,7 @@ def time_script(case):
         elif o[0] == 1:
             next_ = nxt(clock)
         else:
-            k = 1 if o[0] == 0 else sum(len(t) for t in o[1])
+            k = 1 if o[0] in (0, 5, 7, 10) else sum(len(t) for t in o[1])
             for _ in range(k):
                 fire = clock >= next_
                 if fire:
